@@ -1,26 +1,37 @@
 """C19 -- Stats count every request once and keep bounded samples.
 
 Decided:
-  R19.a  StatsMiddleware.request: the ``...add(hit)`` call runs exactly once after next() on the normal
-         and on the exceptional path (it sits in the ``finally`` of the ``try`` holding next(), outside
-         loops); the handler re-raises; the status key comes from status_code of the result / code of the
-         exception (class name fallback) and the hit is filed under route_hits[_route][<status key>];
-         the Hit fields are filled in the namedtuple's declared order;
-  R19.b  get_and_reset_stats_dict computes its report before reset(); reset() rebinds route_hits to a
-         fresh mapping; the reported count is the reservoir's total_count;
+  R19.a  StatsMiddleware.request: the ``...add(hit)`` call(s) run exactly once after next() on the normal
+         and on the exceptional path (outside loops); the handler re-raises; the status key comes from
+         status_code of the result / ``getattr(exc, 'code', <class name>)`` of the exception; the hit is filed
+         under self.route_hits[_route][<status key>] (receiver read through named temporaries) and
+         ``self.route_hits`` is read *after* next() ran (reset() re-binds it: a table captured before would be
+         an orphan); the recorded value is Hit(...) with the fields in the namedtuple's declared order
+         (positional or keyword);
+  R19.b  get_and_reset_stats_dict computes its report (a get_stats_dict call) before reset() on every path and
+         returns that report (or a dict built over it); reset() rebinds route_hits to a fresh mapping; the
+         constructor initialises through reset() or such a binding; in the per-status dict that
+         _get_route_stats *reports* (followed through ``ret[k] = cur = {}`` aliases, dict comprehensions,
+         dict()/{**} copies and module-level helpers) the 'count' entry taken from total_count is the last
+         writer of that key (describe() brings its own 'count');
   R19.c  Reservoir: _total_count is incremented exactly once on every path of add(); every append on
-         _data and every indexed store is entailed in-bounds by its path condition (difference constraints);
-         resize() leaves len(_data) <= _cap; only the value passed to add() is stored; nobody outside
-         Reservoir's own methods writes _data/_cap/_total_count.
+         _data and every indexed store is entailed in-bounds by its path condition (difference constraints
+         over terms with named temporaries / aliases of self._data looked through) and is the first write of the
+         call (the facts are stale after a write); resize() leaves len(_data) <= _cap (bound test, possibly via a
+         named flag, or truncation); only the value passed to add() is stored; nobody outside Reservoir's own
+         methods writes _data/_cap/_total_count; iteration is over _data (return iter(..) or generator form);
+         the subclass delegates to the base add exactly once (super() or explicit base call).
+Each group runs in isolation (a gap in one does not hide violations of the others).
 Declined: sampling statistics (uniformity); totals per status over histories.
 """
 import ast
 
 from ..core import AnalysisError, norm, short
 from .. import diffcon, effects
+from ..cfg import expand_conds
 from .common import (cfg_of, fkey, conds, has_cond, cond_texts, stmts_of, walk_body, call_tail, call_name,
                      returns_of, handler_reraises_always, stmt_of)
-from .c15 import next_derived, is_next_call
+from .c15 import next_derived, is_next_call, _guarded
 
 STATS = 'clastic.middleware.stats'
 
@@ -47,17 +58,36 @@ def run(rep):
                'R19.c bounded writes on the sample store')
     rep.decline('uniformity of sampling; totals per status over request histories')
     rep.assume('random.random() returns a float in [0, 1) so fast_randint(0, n) is a non-negative int')
-
-    # ---- R19.a -----------------------------------------------------------
     rep.rule('R19.a', 'the hit is recorded exactly once per call on normal and exceptional paths, under [_route][status]')
+    rep.rule('R19.b', 'report is computed before reset; reset rebinds to a fresh mapping; count is total_count')
+    rep.rule('R19.c', 'Reservoir: count once per add; appends and indexed stores entailed in-bounds; resize keeps len<=cap')
+    # every group runs even when another one cannot be analysed (its gap is reported as ANALYSIS-ERROR at the end)
+    for group in (_request_records_once, _report_before_reset, _reported_count, _reservoir_add, _reservoir_resize,
+                  _reservoir_init, _reservoir_rest):
+        _guarded(rep, group, rep, repo, st)
+    for rule, n in (('R19.a', 8), ('R19.b', 6), ('R19.c', 12)):
+        rep.guard(rep.floor, rule, n)
+
+
+# ---- R19.a ---------------------------------------------------------------------------------------------------------
+def _request_records_once(rep, repo, st):
     rq = st.func('StatsMiddleware.request')
     cfg = cfg_of(rq)
     next_stmts = [s for s in stmts_of(rq.node) if not isinstance(s, (ast.Try, ast.If, ast.For, ast.While, ast.With))
                   and any(is_next_call(c) for c in ast.walk(s) if isinstance(c, ast.Call))]
     if len(next_stmts) != 1:
         raise AnalysisError('StatsMiddleware.request: expected exactly one next() call, found %d' % len(next_stmts))
-    add_calls = [c for c in walk_body(rq.node) if isinstance(c, ast.Call) and call_tail(c) == 'add'
-                 and 'route_hits' in norm(c.func)]
+    nd = next_derived(rq)
+    Lq = diffcon.Locals(rq.node, cfg, keep=nd)
+    # the recording call: ``<...route_hits...>.add(hit)``, the receiver read through named temporaries
+    add_calls, add_recv, add_via = [], {}, {}
+    for c in walk_body(rq.node):
+        if isinstance(c, ast.Call) and call_tail(c) == 'add' and isinstance(c.func, ast.Attribute):
+            via = []
+            r = Lq.resolve(c.func.value, stmt_of(st, c), via=via)
+            if 'route_hits' in norm(r) or 'route_hits' in norm(c.func.value):
+                add_calls.append(c)
+                add_recv[id(c)], add_via[id(c)] = r, via
     if not add_calls:
         raise AnalysisError('StatsMiddleware.request: no route_hits[...].add(...) call')
     add_stmts = [stmt_of(st, c) for c in add_calls]
@@ -76,9 +106,9 @@ def run(rep):
             ok = handler_reraises_always(rq, h)
             rep.check('R19.a', fkey(rq, 'except ' + norm(h.type)), ok, 'handler re-raises the exception it counted' if ok else
                       'handler around next() swallows the exception', st, h)
-    # status key provenance
+    # where the hit is filed
     add = add_calls[0]
-    recv = add.func.value      # self.route_hits[_route][resp_status]
+    recv = add_recv[id(add)]      # self.route_hits[_route][resp_status]
     keys = []
     cur = recv
     while isinstance(cur, ast.Subscript):
@@ -88,108 +118,157 @@ def run(rep):
     ok = len(keys) == 2 and keys[0] == '_route' and norm(cur) == 'self.route_hits'
     rep.check('R19.a', fkey(rq, 'key order'), ok, 'hit is filed under self.route_hits[_route][%s]' % (keys[1] if len(keys) == 2 else '?') if ok else
               'hit is not filed under self.route_hits[_route][<status>]: %s' % short(recv), st, add)
+    # the table is looked up when the hit is recorded: reset() re-binds self.route_hits, so a table fetched before
+    # next() ran may be an orphan by the time the hit is added (the request would be counted nowhere)
+    readers = [s_ for s_ in [stmt_of(st, add)] + add_via[id(add)]
+               if any(isinstance(x, ast.Attribute) and x.attr == 'route_hits' for x in diffcon._header_nodes(s_))]
+    early = [s_ for s_ in readers if not cfg.must_pass(next_nodes, cfg.entry, cfg.nodes_of(s_))]
+    rep.check('R19.a', fkey(rq, 'table looked up after next()'), bool(readers) and not early,
+              'self.route_hits is read after next() returned/raised, where the hit is recorded' if readers and not early else
+              'self.route_hits is captured before next() runs (%s): a reset() during the request leaves the hit in an orphaned table'
+              % ('; '.join(short(s_) for s_ in early) or 'no read of self.route_hits found'), st, (early or [stmt_of(st, add)])[0])
+    # status key provenance
     status_var = keys[1] if len(keys) == 2 else None
-    nd = next_derived(rq)
     sv_assigns = [s for s in stmts_of(rq.node) if isinstance(s, ast.Assign) and norm(s.targets[0]) == status_var]
     body_ok = exc_ok = False
+
+    def _class_name_of(e, v):
+        return norm(e) in ('%s.__class__.__name__' % v, 'type(%s).__name__' % v)
+
+    def _lenient(e, v, attr, any_default=False):
+        """``getattr(v, attr, <class name of v>)`` somewhere in e (named temporaries already looked through)"""
+        for n in ast.walk(e):
+            if isinstance(n, ast.Call) and call_name(n) == 'getattr' and len(n.args) == 3 and norm(n.args[0]) == v and \
+                    isinstance(n.args[1], ast.Constant) and n.args[1].value == attr and (any_default or _class_name_of(n.args[2], v)):
+                return True
+        return False
     for s in sv_assigns:
-        txt = norm(s.value)
-        in_handler = any(isinstance(p, ast.ExceptHandler) for p in _ancestors(st, s))
-        if in_handler:
-            h = [p for p in _ancestors(st, s) if isinstance(p, ast.ExceptHandler)][0]
-            if h.name and "getattr(%s, 'code'" % h.name in txt and '__class__.__name__' in txt:
+        hs = [p for p in _ancestors(st, s) if isinstance(p, ast.ExceptHandler)]
+        val = Lq.resolve(s.value, s)
+        if hs:
+            if hs[0].name and _lenient(val, hs[0].name, 'code'):
                 exc_ok = True
-        else:
-            if any("getattr(%s, 'status_code'" % v in txt or '%s.status_code' % v in txt for v in nd):
-                body_ok = True
+        elif any(_lenient(val, v, 'status_code', True) or
+                 any(isinstance(n, ast.Attribute) and n.attr == 'status_code' and norm(n.value) == v for n in ast.walk(val)) for v in nd):
+            body_ok = True
     rep.check('R19.a', fkey(rq, 'status key (result)'), body_ok, 'status key derives from status_code of the next() result' if body_ok else
               'status key on the normal path does not derive from the result\'s status_code', st, rq.node)
     rep.check('R19.a', fkey(rq, 'status key (exception)'), exc_ok,
               'status key derives from the exception\'s code, else its class name' if exc_ok else
               'status key on the exceptional path does not derive from exception code / class name', st, rq.node)
-    # Hit field order
-    hit_calls = [c for c in walk_body(rq.node) if isinstance(c, ast.Call) and call_name(c) == 'Hit']
+    # Hit field order: the recorded value is Hit(...) with the arguments lined up with the namedtuple's fields
     fields = None
     for v in st.assigns.get('Hit', []):
         if isinstance(v, ast.Call) and call_tail(v) == 'namedtuple' and len(v.args) >= 2:
             f = repo.try_fold(v.args[1], st)
-            fields = f.split() if isinstance(f, str) else (list(f) if f else None)
-    if not hit_calls or not fields:
+            fields = f.replace(',', ' ').split() if isinstance(f, str) else (list(f) if f else None)
+    hc = Lq.resolve(add.args[0], stmt_of(st, add), stop=lambda n: n == status_var) if len(add.args) == 1 else None
+    if not (isinstance(hc, ast.Call) and call_name(hc) == 'Hit'):
+        hit_calls = [c for c in walk_body(rq.node) if isinstance(c, ast.Call) and call_name(c) == 'Hit']
+        hc = Lq.resolve(hit_calls[0], stmt_of(st, hit_calls[0]), stop=lambda n: n == status_var) if hit_calls else None
+    if hc is None or not fields:
         raise AnalysisError('Hit namedtuple / construction not found')
-    hc = hit_calls[0]
     got = dict(zip(fields, [norm(a) for a in hc.args]))
     got.update((k.arg, norm(k.value)) for k in hc.keywords)
     want = {'status_code': status_var, 'pattern': '_route.pattern', 'url': 'request.path'}
     bad = dict((k, got.get(k)) for k, v in want.items() if got.get(k) != v)
-    ok = not bad and len(hc.args) + len(hc.keywords) == len(fields)
+    ok = not bad and len(hc.args) + len(hc.keywords) == len(fields) and not any(isinstance(a, ast.Starred) for a in hc.args)
     rep.check('R19.a', fkey(rq, 'Hit fields'), ok, 'Hit(...) arguments line up with the namedtuple fields %s' % fields if ok else
-              'Hit(...) arguments do not line up with fields %s: %r' % (fields, bad or got), st, hc)
+              'Hit(...) arguments do not line up with fields %s: %r' % (fields, bad or got), st, add)
     # return value
     rets = returns_of(rq)
     ok = bool(rets) and all(isinstance(r.value, ast.Name) and r.value.id in nd for r in rets)
     rep.check('R19.a', fkey(rq, 'return'), ok, 'returns the next() result' if ok else 'does not return the next() result', st, rq.node)
-    rep.floor('R19.a', 7)
 
-    # ---- R19.b -----------------------------------------------------------
-    rep.rule('R19.b', 'report is computed before reset; reset rebinds to a fresh mapping; count is total_count')
+
+# ---- R19.b ---------------------------------------------------------------------------------------------------------
+def _report_before_reset(rep, repo, st):
     gr = st.func('get_and_reset_stats_dict')
     cfg_gr = cfg_of(gr)
-    rep_st = [s for s in stmts_of(gr.node) if isinstance(s, ast.Assign) and isinstance(s.value, ast.Call)
-              and call_name(s.value) == 'get_stats_dict']
-    reset_st = [stmt_of(st, c) for c in walk_body(gr.node) if isinstance(c, ast.Call) and call_tail(c) == 'reset']
-    ok = len(rep_st) == 1 and len(reset_st) >= 1 and \
-        all(cfg_gr.must_pass(cfg_gr.nodes_of(rep_st[0]), cfg_gr.entry, cfg_gr.nodes_of(r)) for r in reset_st) and \
-        not (set(cfg_gr.nodes_of(rep_st[0])) & cfg_gr.reach(cfg_gr.nodes_of_all(reset_st), include_src=False))
+    Lg = diffcon.Locals(gr.node, cfg_gr)
+    # statements that compute the report / reset the counters (wherever the calls sit in them)
+    rep_st = _uniq(stmt_of(st, c) for c in walk_body(gr.node) if isinstance(c, ast.Call) and call_name(c) == 'get_stats_dict')
+    reset_st = _uniq(stmt_of(st, c) for c in walk_body(gr.node) if isinstance(c, ast.Call) and call_tail(c) == 'reset')
+    if not rep_st and not reset_st:
+        raise AnalysisError('get_and_reset_stats_dict: neither a get_stats_dict(...) nor a reset() call found')
+    rep_nodes = cfg_gr.nodes_of_all(rep_st)
+    ok = len(rep_st) >= 1 and len(reset_st) >= 1 and \
+        all(cfg_gr.must_pass(rep_nodes, cfg_gr.entry, cfg_gr.nodes_of(r)) for r in reset_st) and \
+        not (set(rep_nodes) & cfg_gr.reach(cfg_gr.nodes_of_all(reset_st), include_src=False))
     rep.check('R19.b', fkey(gr, 'report before reset'), ok, 'totals are collected before the counters are reset' if ok else
               'reset() can run before the report is computed', st, gr.node)
-    rv = norm(rep_st[0].targets[0]) if rep_st else None
+    # what is returned is that report: the local it was bound to, or a dict built over it (dict(report, reset=True))
     rets = returns_of(gr)
-    ok = bool(rets) and all(norm(r.value) == rv for r in rets)
+    ok = bool(rets)
+    for r in rets:
+        via = []
+        v = Lg.resolve(r.value, r, via=via) if r.value is not None else None
+        src = [s_ for s_ in via + [r] if s_ in rep_st]
+        ok = ok and v is not None and bool(src) and any(isinstance(c, ast.Call) and call_name(c) == 'get_stats_dict' for c in ast.walk(v))
     rep.check('R19.b', fkey(gr, 'returns report'), ok, 'the pre-reset report is what is returned' if ok else
               'the returned value is not the pre-reset report', st, gr.node)
     ok = bool(reset_st) and cfg_gr.must_pass(cfg_gr.nodes_of_all(reset_st), cfg_gr.entry, cfg_gr.exit)
     rep.check('R19.b', fkey(gr, 'reset on every path'), ok, 'reset() runs on every normal path' if ok else
               'a normal path skips reset()', st, gr.node)
     rs = st.func('StatsMiddleware.reset')
-    asg = [s for s in stmts_of(rs.node) if isinstance(s, ast.Assign) and norm(s.targets[0]) == 'self.route_hits']
-    ok = len(asg) == 1 and isinstance(asg[0].value, (ast.Call, ast.Dict)) and \
-        cfg_of(rs).must_pass(cfg_of(rs).nodes_of(asg[0]), cfg_of(rs).entry, cfg_of(rs).exit)
+    cfg_rs = cfg_of(rs)
+    Ls = diffcon.Locals(rs.node, cfg_rs)
+    asg = [(s, v) for s in stmts_of(rs.node) for t, v in _assign_pairs(s) if norm(t) == 'self.route_hits']
+    ok = len(asg) == 1 and isinstance(Ls.resolve(asg[0][1], asg[0][0]), (ast.Call, ast.Dict, ast.DictComp)) and \
+        cfg_rs.must_pass(cfg_rs.nodes_of(asg[0][0]), cfg_rs.entry, cfg_rs.exit)
     rep.check('R19.b', fkey(rs, 'self.route_hits'), ok, 'reset() rebinds route_hits to a freshly constructed mapping' if ok else
               'reset() does not rebind route_hits to a fresh mapping', st, rs.node)
     init = st.func('StatsMiddleware.__init__')
-    ok = any(isinstance(c, ast.Call) and norm(c.func) == 'self.reset' for c in walk_body(init.node))
-    rep.check('R19.b', fkey(init, 'reset()'), ok, 'constructor initialises through reset()' if ok else
+    cfg_i = cfg_of(init)
+    Lin = diffcon.Locals(init.node, cfg_i)
+    starts = [stmt_of(st, c) for c in walk_body(init.node) if isinstance(c, ast.Call) and norm(c.func) == 'self.reset'] + \
+        [s for s in stmts_of(init.node) for t, v in _assign_pairs(s) if norm(t) == 'self.route_hits'
+         and isinstance(Lin.resolve(v, s), (ast.Call, ast.Dict, ast.DictComp))]
+    ok = bool(starts) and cfg_i.must_pass(cfg_i.nodes_of_all(starts), cfg_i.entry, cfg_i.exit)
+    rep.check('R19.b', fkey(init, 'reset()'), ok, 'constructor initialises the counters (through reset() / a fresh mapping)' if ok else
               'constructor no longer initialises the counters through reset()', st, init.node)
-    grs = st.func('_get_route_stats')
-    # layer order of the per-status dict: the 'count' entry taken from total_count must be the *last* writer of that
-    # key (describe() brings its own 'count' = number of retained samples)
-    from ..layers import layers_of_var
-    ok = False
-    dict_vars = set(norm(s.targets[0].value) for s in stmts_of(grs.node) if isinstance(s, ast.Assign) and isinstance(s.targets[0], ast.Subscript)
-                    and isinstance(s.targets[0].value, ast.Name)) | \
-        set(norm(t) for s in stmts_of(grs.node) if isinstance(s, ast.Assign) for t in s.targets if isinstance(t, ast.Name))
-    for dv in sorted(dict_vars):
-        try:
-            ls = layers_of_var(grs.node, dv)
-        except AnalysisError:
-            continue
-        idx_count = [i for i, l in enumerate(ls) if l.kind == 'literal' and 'count' in (l.keys or []) and
-                     isinstance(l.values.get('count'), ast.Attribute) and l.values['count'].attr == 'total_count']
-        idx_desc = [i for i, l in enumerate(ls) if l.kind == 'source' and ('describe' in l.text or 'desc' in l.text)]
-        other_count = [i for i, l in enumerate(ls) if l.kind == 'literal' and 'count' in (l.keys or []) and i not in idx_count]
-        if idx_count and not other_count and all(i < idx_count[-1] for i in idx_desc):
-            # this dict must be the one that is reported
-            ok = True
-    cnt = [s for s in stmts_of(grs.node) if isinstance(s, ast.Assign) and isinstance(s.targets[0], ast.Subscript)
-           and isinstance(s.targets[0].slice, ast.Constant) and s.targets[0].slice.value == 'count']
-    rep.check('R19.b', fkey(grs, "['count']"), ok, 'reported count is the reservoir total_count (not the sample size)' if ok else
-              'reported count is not the reservoir\'s total_count', st, grs.node)
-    rep.floor('R19.b', 6)
 
-    # ---- R19.c -----------------------------------------------------------
-    rep.rule('R19.c', 'Reservoir: count once per add; appends and indexed stores entailed in-bounds; resize keeps len<=cap')
+
+def _reported_count(rep, repo, st):
+    """layer order of the *reported* per-status dict: the 'count' entry taken from total_count must be the last writer of
+    that key (describe() brings its own 'count' = number of retained samples)"""
+    grs = st.func('_get_route_stats')
+    vals = _reported_values(repo, grs)
+    if not vals:
+        raise AnalysisError('_get_route_stats: cannot find the per-status dict it reports')
+    ok, why = True, ''
+    for vfi, vexpr in vals:
+        ls = _dict_layers(repo, vfi, vexpr)
+        idx_count = [i for i, l in enumerate(ls) if l.kind == 'literal' and 'count' in (l.keys or []) and _is_total_count(st, l.values.get('count'))]
+        other_count = [i for i, l in enumerate(ls) if l.kind == 'literal' and 'count' in (l.keys or []) and i not in idx_count]
+        if not idx_count:
+            ok, why = False, "no 'count' entry taken from total_count among %s" % [repr(l) for l in ls]
+            break
+        last = idx_count[-1]
+        if any(i > last for i in other_count):
+            ok, why = False, "'count' is overwritten after the total_count entry"
+            break
+        for i, l in enumerate(ls):
+            if i > last and l.kind == 'source' and ok:
+                if _mentions_describe(vfi, l):
+                    ok, why = False, "the describe() result (its own 'count' = sample size) is merged over the total_count entry"
+                elif not isinstance(l.node, ast.stmt):      # (d[<computed key>] = ... is one other key)
+                    raise AnalysisError("_get_route_stats: cannot tell whether %s (merged after the 'count' entry) carries a 'count'" % l.text)
+        if not ok:
+            break
+    rep.check('R19.b', fkey(grs, "['count']"), ok, 'reported count is the reservoir total_count (not the sample size)' if ok else
+              'reported count is not the reservoir\'s total_count: %s' % why, st, grs.node)
+
+
+# ---- R19.c ---------------------------------------------------------------------------------------------------------
+DATA, LEN, CAP = 'self._data', 'len(self._data)', 'self._cap'
+MUTATORS = {'append', 'insert', 'extend', 'pop', 'remove', 'clear', 'sort', 'reverse', '__setitem__', '__delitem__'}
+
+
+def _reservoir_add(rep, repo, st):
     add_f = st.func('Reservoir.add')
     cfg_a = cfg_of(add_f)
+    La = diffcon.Locals(add_f.node, cfg_a)      # ``samples = self._data`` ... ``samples.append(val)``
     incs = [s for s in stmts_of(add_f.node) if isinstance(s, ast.AugAssign) and norm(s.target) == 'self._total_count'
             and isinstance(s.op, ast.Add) and isinstance(s.value, ast.Constant) and s.value.value == 1]
     others = [s for s in stmts_of(add_f.node) if isinstance(s, (ast.Assign, ast.AugAssign)) and s not in incs and
@@ -199,68 +278,91 @@ def run(rep):
     rep.check('R19.c', fkey(add_f, '_total_count += 1'), ok, 'total count is incremented exactly once on every path of add()' if ok else
               'total count is not incremented exactly once per add(): %s' % (why or 'other writes to _total_count'), st, add_f.node)
     val_param = [p for p in add_f.params() if p != 'self'][0]
-    LEN, CAP = 'len(self._data)', 'self._cap'
     n_writes = 0
+    # every write to the store (the facts about len(_data) that bound a write are stale once another write ran before it)
+    w_stmts = _uniq([stmt_of(st, c) for c in walk_body(add_f.node) if isinstance(c, ast.Call) and isinstance(c.func, ast.Attribute)
+                     and c.func.attr in MUTATORS and La.text(c.func.value, stmt_of(st, c)) == DATA] +
+                    [s for s in stmts_of(add_f.node) if isinstance(s, (ast.Assign, ast.AugAssign, ast.Delete)) and
+                     any(isinstance(t, ast.Subscript) and La.text(t.value, s) == DATA
+                         for t in (s.targets if not isinstance(s, ast.AugAssign) else [s.target]))])
+    w_nodes = set(cfg_a.nodes_of_all(w_stmts))
+
+    def fresh(node_stmt):
+        """no other write to _data can run before this one"""
+        mine = set(cfg_a.nodes_of(node_stmt))
+        return not (mine & cfg_a.reach([m for w in w_nodes - mine for m in cfg_a.succ[w]]))
     for c in walk_body(add_f.node):
-        if isinstance(c, ast.Call) and call_tail(c) in ('append', 'insert', 'extend') and norm(c.func.value) == 'self._data':
+        if isinstance(c, ast.Call) and call_tail(c) in ('append', 'insert', 'extend') and isinstance(c.func, ast.Attribute) \
+                and La.text(c.func.value, stmt_of(st, c)) == DATA:
             n_writes += 1
-            cs = conds(add_f, c)
+            cs = La.conds(conds(add_f, c), st)
             facts = diffcon.facts_from_conds(cs)
-            ok = call_tail(c) == 'append' and diffcon.entails(facts, (LEN, CAP, True))
-            rep.check('R19.c', fkey(add_f, c), ok,
+            ok = call_tail(c) == 'append' and diffcon.entails(facts, (LEN, CAP, True)) and fresh(stmt_of(st, c))
+            rep.check('R19.c', fkey(add_f, '%s.append(%s)' % (DATA, ', '.join(norm(a) for a in c.args))), ok,
                       'append is entailed below capacity: %s |- len(_data) < _cap' % '; '.join(cond_texts(cs)) if ok else
                       'growth of _data is not bounded by its path condition (%s does not entail len(self._data) < self._cap): '
                       'the store can exceed its capacity' % ('; '.join(cond_texts(cs)) or 'no condition'), st, c)
-            ok = len(c.args) == 1 and norm(c.args[0]) == val_param
+            ok = len(c.args) == 1 and La.text(c.args[0], stmt_of(st, c)) == val_param
             rep.check('R19.c', fkey(add_f, 'appended value'), ok, 'the appended value is the argument of add()' if ok else
                       'appended value %s is not the value passed to add()' % short(c.args[0] if c.args else None), st, c)
     for s in stmts_of(add_f.node):
-        if isinstance(s, ast.Assign) and isinstance(s.targets[0], ast.Subscript) and norm(s.targets[0].value) == 'self._data':
+        if isinstance(s, ast.Assign) and isinstance(s.targets[0], ast.Subscript) and La.text(s.targets[0].value, s) == DATA:
             n_writes += 1
-            idx = norm(s.targets[0].slice)
-            cs = conds(add_f, s)
+            idx_e = La.resolve(s.targets[0].slice, s)
+            idx = norm(idx_e)
+            cs = La.conds(conds(add_f, s), st)
             facts = diffcon.facts_from_conds(cs)
-            ok = diffcon.entails(facts, (idx, LEN, True))
-            rep.check('R19.c', fkey(add_f, s), ok,
+            ok = diffcon.entails(facts, (idx, LEN, True)) and fresh(s)
+            rep.check('R19.c', fkey(add_f, '%s[%s] = %s' % (DATA, norm(s.targets[0].slice), norm(s.value))), ok,
                       'indexed store is entailed in-bounds: %s |- %s < len(_data)' % ('; '.join(cond_texts(cs)), idx) if ok else
                       'indexed store self._data[%s] is not entailed in-bounds by its path condition (%s): IndexError possible '
                       '(e.g. after resize() to a larger capacity)' % (idx, '; '.join(cond_texts(cs)) or 'none'), st, s)
             # non-negative index: comes from fast_randint(0, ...) / randrange
-            src = [a for a in stmts_of(add_f.node) if isinstance(a, ast.Assign) and norm(a.targets[0]) == idx]
-            ok = len(src) == 1 and isinstance(src[0].value, ast.Call) and call_tail(src[0].value) in ('fast_randint', 'randint', 'randrange') \
-                and src[0].value.args and isinstance(src[0].value.args[0], ast.Constant) and src[0].value.args[0].value == 0
+            ok = isinstance(idx_e, ast.Call) and call_tail(idx_e) in ('fast_randint', 'randint', 'randrange') \
+                and bool(idx_e.args) and repo.try_fold(idx_e.args[0], st) == 0 and isinstance(repo.try_fold(idx_e.args[0], st), int)
             rep.check('R19.c', fkey(add_f, 'index source'), ok, 'index is drawn from [0, n]' if ok else
                       'index %s is not drawn from a range starting at 0' % idx, st, s)
-            ok = norm(s.value) == val_param
+            ok = La.text(s.value, s) == val_param
             rep.check('R19.c', fkey(add_f, 'stored value'), ok, 'the stored value is the argument of add()' if ok else
                       'stored value %s is not the value passed to add()' % short(s.value), st, s)
     if n_writes < 2:
         raise AnalysisError('Reservoir.add: expected an append and an indexed store on self._data')
-    # resize
+
+
+def _reservoir_resize(rep, repo, st):
     rz = st.func('Reservoir.resize')
     cfg_r = cfg_of(rz)
+    Lr = diffcon.Locals(rz.node, cfg_r)
     newp = [p for p in rz.params() if p != 'self'][0]
-    cap_st = [s for s in stmts_of(rz.node) if isinstance(s, ast.Assign) and norm(s.targets[0]) == 'self._cap']
-    ok = len(cap_st) == 1 and norm(cap_st[0].value) == newp
+    cap_st = [s for s in stmts_of(rz.node) if isinstance(s, ast.Assign) and norm(s.targets[0]) == CAP]
+    ok = len(cap_st) == 1 and Lr.text(cap_st[0].value, cap_st[0]) == newp
+    # a branch on which what is known entails len(_data) <= new_size (the test may be spelt through a named flag) ...
     good_nodes = []
     for nd_ in cfg_r.nodes:
         if nd_.kind == 'branch':
-            f = diffcon.fact_of(nd_.test, nd_.pol)
-            if f and diffcon.entails([f], (LEN, newp, False)):
+            own = cfg_r._expand_named(expand_conds([(nd_.test, nd_.pol)]), nd_.id)
+            facts = diffcon.facts_from_conds(Lr.conds(own, st))
+            if diffcon.entails(facts, (LEN, newp, False)):
                 good_nodes.append(nd_.id)
+    # ... or a truncation  self._data = self._data[:new_size]
     for s in stmts_of(rz.node):
-        if isinstance(s, ast.Assign) and norm(s.targets[0]) == 'self._data' and isinstance(s.value, ast.Subscript) \
-                and isinstance(s.value.slice, ast.Slice) and s.value.slice.lower is None and s.value.slice.step is None \
-                and s.value.slice.upper is not None and norm(s.value.slice.upper) == newp and norm(s.value.value) == 'self._data':
-            good_nodes += cfg_r.nodes_of(s)
+        if isinstance(s, ast.Assign) and norm(s.targets[0]) == DATA:
+            v = Lr.resolve(s.value, s)
+            if isinstance(v, ast.Subscript) and isinstance(v.slice, ast.Slice) and v.slice.lower is None and v.slice.step is None \
+                    and v.slice.upper is not None and norm(v.slice.upper) == newp and norm(v.value) == DATA:
+                good_nodes += cfg_r.nodes_of(s)
     ok = ok and cfg_r.must_pass(good_nodes, cfg_r.nodes_of(cap_st[0]) if cap_st else cfg_r.entry, cfg_r.exit) and \
         cfg_r.must_pass(cfg_r.nodes_of_all(cap_st), cfg_r.entry, cfg_r.exit)
     rep.check('R19.c', fkey(rz, 'len <= cap'), ok,
               'after resize either len(_data) <= new_size was tested or _data was truncated to [:new_size]' if ok else
               'resize() can leave more than _cap values in _data (no truncation / bound test on some path)', st, rz.node)
+
+
+def _reservoir_init(rep, repo, st):
     # constructor: the capacity parameter doubles as a flag (True = default, False = unbounded); since 1 == True and
     # 0 == False in Python, the flag tests must be identity tests, otherwise cap=1 / cap=0 silently get another capacity
     ri = st.func('Reservoir.__init__')
+    Li = diffcon.Locals(ri.node, cfg_of(ri))
     capp = [p for p in ri.params() if p != 'self'][0]
     flag_tests = [n for n in walk_body(ri.node) if isinstance(n, ast.Compare) and
                   (norm(n.left) == capp or any(norm(c) == capp for c in n.comparators)) and
@@ -270,10 +372,18 @@ def run(rep):
               'cap is compared with True/False by identity (%d tests)' % len(flag_tests) if flag_tests and not bad else
               'cap is compared with a bool by equality / membership (%s): cap=1 (== True) or cap=0 (== False) would be taken for the flag and '
               'the store would exceed the requested capacity' % [short(t) for t in bad], st, (bad or [ri.node])[0])
-    caps = [s for s in stmts_of(ri.node) if isinstance(s, ast.Assign) and norm(s.targets[0]) == 'self._cap']
-    ok = any(norm(s.value) == 'int(%s)' % capp and not has_cond(conds(ri, s), lambda t: True, True) or norm(s.value) == 'int(%s)' % capp for s in caps)
+    caps = [s for s in stmts_of(ri.node) if isinstance(s, ast.Assign) and CAP in [norm(t) for t in s.targets]]
+    ok = any(Li.text(s.value, s) == 'int(%s)' % capp for s in caps)
+    if not ok:
+        # ``self._cap = cap`` where the local was normalised branch by branch (``cap = int(cap)`` in the else branch)
+        loc = [s for s in stmts_of(ri.node) if isinstance(s, ast.Assign) and norm(s.value) == 'int(%s)' % capp]
+        ok = any(isinstance(c.value, ast.Name) and any(isinstance(t, ast.Name) and t.id == c.value.id for t in l.targets)
+                 for c in caps for l in loc)
     rep.check('R19.c', fkey(ri, 'numeric capacity'), ok, 'any other value is taken as the capacity itself (int(cap))' if ok else
               'a numeric cap is not stored as the capacity', st, ri.node)
+
+
+def _reservoir_rest(rep, repo, st):
     # who may write the store
     allowed = {'Reservoir.__init__', 'Reservoir.add', 'Reservoir.resize'}
     writers = []
@@ -290,21 +400,158 @@ def run(rep):
                   '%s writes the sample store state (%s) outside Reservoir.__init__/add/resize' % (fi.key, norm(e.target)), m, e.node)
     # accessors
     tc = st.func('Reservoir.total_count')
-    ok = all(norm(r.value) == 'self._total_count' for r in returns_of(tc)) and returns_of(tc)
+    ok = all(diffcon.Locals(tc.node, cfg_of(tc)).text(r.value, r) == 'self._total_count' for r in returns_of(tc)) and returns_of(tc)
     rep.check('R19.c', fkey(tc), bool(ok), 'total_count reports _total_count' if ok else 'total_count does not report _total_count', st, tc.node)
     it = st.func('Reservoir.__iter__')
-    ok = returns_of(it) and all(isinstance(r.value, ast.Call) and call_name(r.value) == 'iter' and norm(r.value.args[0]) == 'self._data'
-                                for r in returns_of(it))
+    Lit = diffcon.Locals(it.node, cfg_of(it))
+    over = lambda e, s_: Lit.text(e, s_) == DATA
+    rets_it = [r for r in returns_of(it) if r.value is not None]
+    yields = [n for n in walk_body(it.node) if isinstance(n, (ast.Yield, ast.YieldFrom))]
+    if yields:
+        # generator spelling: ``yield from self._data`` / ``for v in self._data: yield v`` and nothing else
+        ok = not rets_it
+        for y in yields:
+            ys = stmt_of(st, y)
+            if isinstance(y, ast.YieldFrom):
+                ok = ok and (over(y.value, ys) or (isinstance(y.value, ast.Call) and call_name(y.value) == 'iter' and len(y.value.args) == 1
+                                                   and over(y.value.args[0], ys)))
+            else:
+                loop = st.parents.get(ys)
+                ok = ok and isinstance(loop, ast.For) and len(loop.body) == 1 and not loop.orelse and over(loop.iter, loop) and \
+                    isinstance(loop.target, ast.Name) and isinstance(y.value, ast.Name) and y.value.id == loop.target.id
+    else:
+        ok = rets_it and all(isinstance(r.value, ast.Call) and call_name(r.value) == 'iter' and len(r.value.args) == 1
+                             and over(r.value.args[0], r) for r in rets_it)
     rep.check('R19.c', fkey(it), bool(ok), 'iteration is over _data' if ok else 'iteration is not over _data', st, it.node)
     # subclass delegates exactly once
     sub = st.func('RouteStatReservoir.add')
     cfg_s = cfg_of(sub)
-    sup = [stmt_of(st, c) for c in walk_body(sub.node) if isinstance(c, ast.Call) and call_tail(c) == 'add'
-           and isinstance(c.func.value, ast.Call) and call_name(c.func.value) == 'super']
+    bases = set(c.name if hasattr(c, 'name') else str(c) for c in repo.mro(sub.cls)[1:]) if sub.cls is not None else set()
+    selfname = sub.node.args.args[0].arg if sub.node.args.args else 'self'
+    sup = [stmt_of(st, c) for c in walk_body(sub.node) if isinstance(c, ast.Call) and call_tail(c) == 'add' and isinstance(c.func, ast.Attribute)
+           and ((isinstance(c.func.value, ast.Call) and call_name(c.func.value) == 'super') or
+                (isinstance(c.func.value, ast.Name) and c.func.value.id in bases and c.args and norm(c.args[0]) == selfname))]
     ok, why = _exactly_once(cfg_s, cfg_s.nodes_of_all(sup), [cfg_s.entry], [cfg_s.exit])
     rep.check('R19.c', fkey(sub, 'super().add'), ok, 'RouteStatReservoir.add delegates to Reservoir.add exactly once' if ok else
               'RouteStatReservoir.add: ' + why, st, sub.node)
-    rep.floor('R19.c', 12)
+
+
+def _uniq(xs):
+    out = []
+    for x in xs:
+        if x is not None and not any(x is y for y in out):
+            out.append(x)
+    return out
+
+
+def _assign_pairs(s):
+    """[(target, value)] of an assignment statement; ``a, b = x, y`` gives both pairs."""
+    out = []
+    if isinstance(s, ast.Assign):
+        for t in s.targets:
+            if isinstance(t, (ast.Tuple, ast.List)) and isinstance(s.value, (ast.Tuple, ast.List)) and len(t.elts) == len(s.value.elts) \
+                    and not any(isinstance(e, ast.Starred) for e in t.elts + s.value.elts):
+                out.extend(zip(t.elts, s.value.elts))
+            else:
+                out.append((t, s.value))
+    elif isinstance(s, ast.AnnAssign) and s.value is not None:
+        out.append((s.target, s.value))
+    return out
+
+
+def _reported_values(repo, fi, depth=0):
+    """[(FuncInfo, expr)] -- the expressions whose value becomes a per-key entry of the mapping ``fi`` returns:
+    ``{k: V for ..}``, ``ret[k] = V`` (with ``ret[k] = cur = {}`` the alias ``cur``, later filled, is the entry)."""
+    out = []
+    for r in returns_of(fi):
+        v = r.value
+        if isinstance(v, ast.DictComp):
+            out.append((fi, v.value))
+        elif isinstance(v, ast.Name):
+            for s in stmts_of(fi.node):
+                if not isinstance(s, ast.Assign):
+                    continue
+                if any(isinstance(t, ast.Subscript) and norm(t.value) == v.id for t in s.targets):
+                    al = [t for t in s.targets if isinstance(t, ast.Name)]
+                    out.append((fi, al[0] if al else s.value))
+                elif any(isinstance(t, ast.Name) and t.id == v.id for t in s.targets) and isinstance(s.value, ast.DictComp):
+                    out.append((fi, s.value.value))
+        elif isinstance(v, ast.Call) and depth < 3:
+            callee = _callee(repo, fi, v)
+            if callee is not None:
+                out.extend(_reported_values(repo, callee, depth + 1))
+    return out
+
+
+def _callee(repo, fi, call):
+    """FuncInfo of a module-level function of the analysed tree called by plain name, else None."""
+    if isinstance(call, ast.Call) and isinstance(call.func, ast.Name):
+        try:
+            kind, m, obj = repo.resolve(fi.mod, call.func.id)
+        except Exception:
+            return None
+        if kind == 'func' and m is not None and not m.external:
+            return obj
+    return None
+
+
+def _dict_layers(repo, fi, expr, depth=0):
+    """Layers (vt.layers) of the dict ``expr`` denotes in function ``fi``: locals are followed to their construction
+    and later updates, ``dict(x)`` / ``{**x}`` copies to x, calls of module-level helpers to what they return."""
+    from ..layers import layers_of_var, layers_of_expr, Layer
+    if depth > 5:
+        return [Layer('source', norm(expr), expr)]
+    if isinstance(expr, ast.Name):
+        ls = layers_of_var(fi.node, expr.id)
+        if not ls:
+            return [Layer('source', norm(expr), expr)]
+    elif isinstance(expr, ast.Dict) or (isinstance(expr, ast.Call) and isinstance(expr.func, ast.Name) and expr.func.id == 'dict'):
+        ls = layers_of_expr(expr)
+    elif _callee(repo, fi, expr) is not None:
+        callee = _callee(repo, fi, expr)
+        rets = returns_of(callee)
+        if len(rets) != 1 or rets[0].value is None:
+            return [Layer('source', norm(expr), expr)]
+        return _dict_layers(repo, callee, rets[0].value, depth + 1)
+    else:
+        return [Layer('source', norm(expr), expr)]
+    out = []
+    for l in ls:
+        if l.kind == 'source' and isinstance(l.node, ast.expr) and not (isinstance(expr, ast.Name) and isinstance(l.node, ast.Name) and l.node.id == expr.id):
+            sub = _dict_layers(repo, fi, l.node, depth + 1)
+            if not (len(sub) == 1 and sub[0].kind == 'source'):
+                out.extend(sub)
+                continue
+        out.append(l)
+    return out
+
+
+def _is_total_count(mod, value):
+    """``<reservoir>.total_count``, possibly through a named temporary of the function the expression sits in"""
+    if value is None:
+        return False
+    e = value
+    fnode = mod.enclosing_function(value)
+    fi = mod.func_of_node(fnode) if fnode is not None else None
+    anchor = stmt_of(mod, value)
+    if fi is not None and anchor is not None and cfg_of(fi).nodes_of(anchor):
+        e = diffcon.Locals(fi.node, cfg_of(fi)).resolve(value, anchor)
+    return isinstance(e, ast.Attribute) and e.attr == 'total_count'
+
+
+def _mentions_describe(fi, layer):
+    """Does this source layer come from a ``.describe(...)`` call (named temporaries looked through)?"""
+    n = layer.node
+    if not isinstance(n, ast.expr):
+        return False
+    e = n
+    try:
+        anchor = stmt_of(fi.mod, n)
+        if anchor is not None and cfg_of(fi).nodes_of(anchor):
+            e = diffcon.Locals(fi.node, cfg_of(fi)).resolve(n, anchor)
+    except AnalysisError:
+        pass
+    return any(isinstance(c, ast.Call) and call_tail(c) == 'describe' for c in ast.walk(e))
 
 
 def _ancestors(mod, node):
